@@ -224,10 +224,12 @@ def run_config(ctx, rep, cfg):
             if base not in ("llvm.memcpy", "llvm.memmove", "llvm.memset"):
                 continue
             n = P.lf(i["ops"][2])
-            if n is None or lf_is_const(n):
-                continue
-            ncopy += 1
             a = fa.am.of(i["ops"][0])
+            if n is None:
+                continue
+            if lf_is_const(n) and (a is None or a.segs[-1].off is not None):
+                continue        # constant length at a constant place: covered by the extent rules
+            ncopy += 1
             cons = "%s:%s@%s" % (construct(f), base.split(".")[-1], f.loc(i).split(":")[-1])
             cap = None
             off = None
